@@ -1,7 +1,7 @@
 //! C05 — objective values are never stale: evaluated individuals carry f(solution).
 //! Code: mahf::problems::individual::Individual::{new,new_unevaluated,evaluate_with,set_objective,solution,solution_mut,into_solution,is_evaluated,get_objective,objective,clone,clone_from,eq}
 //! Code: mahf::population::{AsSolutionsMut,IntoSolutions,IntoIndividuals,IntoSingle,IntoSingleRef,BestIndividual}, mahf::state::common::BestIndividual::update
-//! Out: the per-component preservation step for components with Vec encodings through a State (class S; covered where tractable by the driver harnesses of C11/C12/C13/C14 and the component harnesses of C06/C07/C17); composition over whole runs is an induction over C03, not a solver query
+//! Out: the per-component preservation step is decided in the quick tier for six shipped components over a generic encoding (CloneSingle, KeepBetterAtIndex, BestIndividualUpdate, ClearPopulation, RotatePopulations, SA acceptance); All/Merge/MuPlusLambda through a State (collect/sort on lengths the engine cannot fold) and every component with a Vec encoding are thorough-tier best effort; composition over whole runs is an induction over C03, not a solver query
 //! Reclimit: mahf::state::(registry::)?StateRegistry::<.*>::find(_mut)?::<.*>=2
 //! Assume: objective function = symbolic table of 4 legal values over (solution & 3); set_objective is only called with f(solution) (its documented contract); one arbitrary public-API operation from an arbitrary consistent individual (inductive step)
 use mahf::population::{AsSolutionsMut, BestIndividual as BestOf, IntoIndividuals, IntoSingle, IntoSingleRef, IntoSolutions};
@@ -254,4 +254,119 @@ pub fn h_c05_recombination_driver_3() {
     }
     vcover!(true, "reached");
     std::mem::forget(s);
+}
+
+// ---- layer 2 (quick): shipped components over a generic encoding preserve the invariant -----------------
+//
+// Pre-state: stack of populations whose individuals are arbitrary but consistent (evaluated =>
+// objective == f(solution)); one real `execute`; afterwards every individual anywhere in the
+// state (stack, best-so-far memory) is consistent again. Components with Vec encodings are out
+// (class S, see module header).
+
+mod layer2 {
+    use super::*;
+    use mahf::components::evaluation::BestIndividualUpdate;
+    use mahf::components::replacement::{sa::ExponentialAnnealingAcceptance, sa::Temperature, KeepBetterAtIndex, Merge, MuPlusLambda};
+    use mahf::components::selection::{All, CloneSingle};
+    use mahf::components::utils::populations::{ClearPopulation, RotatePopulations};
+    use mahf::components::Component;
+    use mahf::state::common::{BestIndividual, Populations};
+    use mahf::State;
+
+    /// evaluated individual with objective f(solution)
+    fn ev(t: &[f64; 4]) -> Ind {
+        let s = sym::u8();
+        Individual::new(s, obj(f(t, s)))
+    }
+    fn all_consistent(s: &State<'static, TagP>, t: &[f64; 4], max_h: usize) {
+        let p = s.populations();
+        let mut d = 0;
+        while d < max_h {
+            if let Some(pop) = p.try_peek(d) {
+                let mut i = 0;
+                while i < pop.len() && i < 4 {
+                    assert!(consistent(&pop[i], t), "after the component every individual on the population stack carries the value f assigns to its solution (or is unevaluated)");
+                    i += 1;
+                }
+            }
+            d += 1;
+        }
+        if let Ok(b) = s.try_borrow::<BestIndividual<TagP>>() {
+            if let Some(i) = &**b {
+                assert!(consistent(i, t), "the best-so-far memory is consistent");
+            }
+        }
+    }
+    fn state2(t: &[f64; 4], n_top: usize, with_unevaluated: bool) -> State<'static, TagP> {
+        let mut pops = Populations::<TagP>::new();
+        pops.push(vec![ev(t), if with_unevaluated { any_ind(t) } else { ev(t) }]);
+        let mut top = Vec::with_capacity(2);
+        let mut i = 0;
+        while i < n_top {
+            top.push(ev(t));
+            i += 1;
+        }
+        pops.push(top);
+        let mut s: State<TagP> = State::new();
+        s.insert(crate::rng::sym_random(2));
+        s.insert(Temperature(1.0));
+        let mut b = BestIndividual::<TagP>::new();
+        if sym::bool() {
+            b.update(&ev(t));
+        }
+        s.insert(b);
+        s.insert(pops);
+        s
+    }
+
+    macro_rules! comp {
+        ($name:ident, $uw:expr, $ntop:expr, $uneval:expr, $c:expr) => {
+            #[cfg_attr(kani, kani::proof)]
+            #[cfg_attr(kani, kani::unwind($uw))]
+            pub fn $name() {
+                let t = table();
+                let mut s = state2(&t, $ntop, $uneval);
+                let c = $c;
+                let _ = Component::<TagP>::execute(&c, &TagP, &mut s); // Ok or Err: the invariant holds either way
+                all_consistent(&s, &t, 3);
+                vcover!(true, "reached");
+                std::mem::forget(s);
+            }
+        };
+    }
+    // @h tier=thorough bound="stack [2, 1] of consistent individuals (one arbitrary): selection All through its driver" unwind=5 cost=4 mem=28 timeout=3000
+    comp!(h_c05_comp_select_all, 5, 1, true, All::from_params());
+    // @h tier=quick bound="stack [2, 1]: CloneSingle(2) through its driver" unwind=5 cost=4 mem=10 timeout=600
+    comp!(h_c05_comp_clone_single, 5, 1, true, CloneSingle::from_params(2));
+    // @h tier=thorough bound="stack [2, 2]: Merge replacement" unwind=6 cost=4 mem=28 timeout=3000
+    comp!(h_c05_comp_merge, 6, 2, true, Merge::from_params());
+    // @h tier=thorough bound="stack [2, 2] (all evaluated): MuPlusLambda(2)" unwind=7 cost=5 mem=28 timeout=3000
+    comp!(h_c05_comp_mupluslambda, 7, 2, false, MuPlusLambda::from_params(2));
+    // @h tier=quick bound="stack [2, 2] (all evaluated): KeepBetterAtIndex" unwind=6 cost=4 mem=10 timeout=600
+    comp!(h_c05_comp_keepbetter, 6, 2, false, KeepBetterAtIndex::from_params());
+    // @h tier=quick bound="stack [2, 1] (all evaluated): BestIndividualUpdate from any memory" unwind=5 cost=4 mem=10 timeout=600
+    comp!(h_c05_comp_best_update, 5, 1, false, BestIndividualUpdate::from_params());
+    // @h tier=quick bound="stack [2, 1]: ClearPopulation" unwind=5 cost=3 mem=10 timeout=600
+    comp!(h_c05_comp_clear, 5, 1, true, ClearPopulation::from_params());
+    // @h tier=quick bound="stack [2, 1]: RotatePopulations(2)" unwind=5 cost=3 mem=10 timeout=600
+    comp!(h_c05_comp_rotate, 5, 1, true, RotatePopulations::from_params(2));
+
+    /// @h tier=quick bound="stack [1, 1] (both evaluated): SA acceptance, exp over-approximated (any value)" unwind=5 cost=4 mem=10 timeout=600
+    #[cfg_attr(kani, kani::proof)]
+    #[cfg_attr(kani, kani::unwind(5))]
+    pub fn h_c05_comp_sa_acceptance() {
+        let t = table();
+        let mut pops = Populations::<TagP>::new();
+        pops.push(vec![ev(&t)]);
+        pops.push(vec![ev(&t)]);
+        let mut s: State<TagP> = State::new();
+        s.insert(crate::rng::sym_random(1));
+        s.insert(Temperature(1.0));
+        s.insert(pops);
+        let c = ExponentialAnnealingAcceptance::new::<TagP>(1.0);
+        let _ = c.execute(&TagP, &mut s);
+        all_consistent(&s, &t, 2);
+        vcover!(true, "reached");
+        std::mem::forget((s, c));
+    }
 }
